@@ -16,6 +16,7 @@ structure CtrInfo where
   ns : String
   qos : String
   milli : Nat
+  mem : Nat := 0                  -- memory limit (bytes)
   milliTried : List Nat := []     -- requests of UpdateContainer calls that were refused (the cache keeps them)
   flags : String
   state : String := "created"     -- created | running | stopped | removed | refused
@@ -44,9 +45,11 @@ structure St where
   reported : List String := []
   restarts : Nat := 0
   prevCacheView : List (String × String × Res × Bool) := []
+  staleElig : List String := []     -- containers whose class (reserved or not) was changed by an accepted configuration change and that were not re-allocated since
   cfgChanged : Bool := false        -- an accepted configuration change happened earlier in this history
   expectUnchanged : Bool := false   -- the last request was a rejected configuration update: nothing may have changed
   pods : List String := []          -- pods the runtime currently has
+  memTotal : Nat := 0               -- bytes of memory of the generated machine
   cachePods : List String := []     -- pods in the plugin's cache
   unsat : List String := []         -- live containers the policy cannot satisfy at all after the restart (harness probe)
   tainted : Bool := false           -- an unchanged configuration was rejected earlier in this history (known finding); later issues are its consequences
@@ -101,6 +104,14 @@ finding C03:descendant-starved…): the grants can then not be re-instated verba
 re-configuration falls back to re-placing the containers -/
 def starvedBefore (st : St) : Bool := st.reported.any (·.startsWith "C03:descendant-starved-by-ancestor-slicing")
 
+/-- the memory limits of the live containers together exceed the machine's memory: the allocator's zones are
+overcommitted (C07 finding), saved memory zones cannot always be taken again -/
+def memOvercommitted (st : St) : Bool :=
+  ((st.ctrs.filter (fun c => c.state == "created" || c.state == "running")).foldl (fun a c => a + c.mem) 0) > st.memTotal
+
+/-- verbatim re-instatement of the current grants is not guaranteed to succeed (known findings) -/
+def cannotReinstate (st : St) : Bool := starvedBefore st || memOvercommitted st
+
 def getCtr (st : St) (id : String) : Option CtrInfo := st.ctrs.find? (·.id == id)
 def setCtr (st : St) (c : CtrInfo) : St := { st with ctrs := c :: st.ctrs.filter (·.id != c.id) }
 
@@ -141,12 +152,18 @@ def checkState (st : St) : List String :=
         let t := c.told.getD i "-"
         let cv := res.getD i "-"
         if t != "-" then cv != t else !(c.seen.any (fun r => r.getD i "-" == cv))
-      let clearedOnly := c.told.getD 0 "-" != "-" && res.getD 0 "-" == "-" &&
-        !((List.range' 1 6).any fun i =>
+      -- fields other than the cpuset / the memory set agree
+      let fieldBad := fun (i : Nat) =>
           let t := c.told.getD i "-"; let cv := res.getD i "-"
-          if t != "-" then cv != t else !(c.seen.any (fun r => r.getD i "-" == cv)))
+          if t != "-" then cv != t else !(c.seen.any (fun r => r.getD i "-" == cv))
+      let cpusCleared := c.told.getD 0 "-" != "-" && res.getD 0 "-" == "-"
+      let memsCleared := c.told.getD 1 "-" != "-" && res.getD 1 "-" == "-"
+      let clearedOnly := cpusCleared && !((List.range' 1 6).any fun i => fieldBad i && !(i == 1 && memsCleared))
+      -- the memory set was cleared in the cache (memory pinning switched off by a configuration change); NRI cannot tell "no memory set"
+      let memsClearedOnly := memsCleared && st.cfgChanged && !((List.range 7).any fun i => i != 1 && fieldBad i && !(i == 0 && cpusCleared))
       let errs := if bad then
           (if clearedOnly then errs ++ [s!"C05:cpuset-cleared-in-cache-only {c.id} told={c.told.getD 0 "-"}"]
+           else if memsClearedOnly then errs ++ [s!"C05:mems-cleared-in-cache-only {c.id} told={c.told.getD 1 "-"}"]
            else if st.errPending.contains c.id then errs ++ [s!"C05:pending-after-error-reply {c.id} (cache ahead of runtime)"]
            else errs ++ [s!"C05:runtime-view-differs {c.id} told={"|".intercalate c.told} cache={"|".intercalate res}"]) else errs
       if pending then (if st.errPending.contains c.id then errs ++ [s!"C05:pending-after-error-reply {c.id}"] else errs ++ [s!"C05:change-left-pending {c.id}"]) else errs
@@ -159,6 +176,8 @@ def checkState (st : St) : List String :=
   let errs := live.foldl (fun errs c =>
     let cpus := parseCpuList (c.rt.getD 0 "-")
     let mems := parseCpuList (c.rt.getD 1 "-")
+    -- (with CPU pinning switched off the plugin does not manage cpusets: whatever the runtime still has from before is not "told")
+    let cpus := if s.pinCPU then cpus else []
     let errs := if !sub cpus s.allowed then errs ++ [s!"C01:pinned-outside-available {c.id}"] else errs
     match s.grants.find? (·.ctr == c.id) with
     | none => errs
@@ -167,7 +186,8 @@ def checkState (st : St) : List String :=
       let preserveMem := flag c.flags "pm" == "T"
       -- C01 (e) reserved CPUs only to reserved-class containers, never mixed
       let errs := if !disj cpus s.reserved then
-          (if g.cpuType != .reserved then errs ++ [s!"C01:reserved-cpu-to-non-reserved {c.id}"]
+          (if st.staleElig.contains c.id then errs ++ [s!"C13:grant-not-reevaluated-after-accepted-change {c.id} (reserved CPUs)"]
+           else if g.cpuType != .reserved then errs ++ [s!"C01:reserved-cpu-to-non-reserved {c.id}"]
            else if !sub cpus s.reserved then errs ++ [s!"C01:reserved-mixed-with-normal {c.id}"] else errs)
         else errs
       -- C01 (b) other containers' exclusive CPUs
@@ -196,7 +216,8 @@ def checkState (st : St) : List String :=
       let altOk := c.milliTried.any fun m =>
         let w := cpuPrefs qos m (reservedNs st c.ns) preserveCpu (optB (flag c.flags "rs")) (optB (flag c.flags "sh")) (optB (flag c.flags "iso")) none none
         (if w.cpuType == .reserved then 0 else w.full) == g.exclusive.length
-      let errs := if g.exclusive.length != wantFull && !altOk then errs ++ [s!"C03:exclusive-count {c.id} got {g.exclusive.length} rule {wantFull} (qos {c.qos} {c.milli}m flags {c.flags})"] else errs
+      let errs := if g.exclusive.length != wantFull && !altOk && st.staleElig.contains c.id then errs ++ [s!"C13:grant-not-reevaluated-after-accepted-change {c.id} (exclusive CPUs {g.exclusive.length}, rule {wantFull})"]
+        else if g.exclusive.length != wantFull && !altOk then errs ++ [s!"C03:exclusive-count {c.id} got {g.exclusive.length} rule {wantFull} (qos {c.qos} {c.milli}m flags {c.flags})"] else errs
       let errs := if !g.isolatedPart.isEmpty && !(sub g.exclusive s.isolated) then errs ++ [s!"C03:partially-isolated {c.id}"] else errs
       let errs := if s.pinCPU && !preserveCpu && g.cpuType != .preserve then
           (if c.rt.getD 2 "-" != toString (expectedShares g) then errs ++ [s!"C03:shares {c.id} told {c.rt.getD 2 "-"} expected {expectedShares g}"] else errs)
@@ -281,16 +302,18 @@ def replay (st : St) (t : TA) : TA × List String :=
 
 def parseEvCtr (spec : String) : Option CtrInfo :=
   match spec.splitOn ":" with
-  | [id, pod, ns, qos, milli, _lim, _mem, flags] => do
-    pure { id, pod, ns, qos, milli := ← milli.toNat?, flags }
+  | [id, pod, ns, qos, milli, _lim, mem, flags] => do
+    pure { id, pod, ns, qos, milli := ← milli.toNat?, mem := mem.toNat?.getD 0, flags }
   | _ => none
 
 def step (st : St) (toks : List String) : St × List Issue :=
   match toks with
   | "H" :: h :: _ :: cfg =>
     ({ st with hist := h.toNat?.getD 0, cfg := " ".intercalate cfg, ctrs := [], snap := ⟨[], [], [], true, true, [], []⟩, initPools := [], haveInit := false,
-               cacheView := [], drained := false, errPending := [], model := none, modelDesync := false, reported := [], tainted := false, cfgChanged := false, expectUnchanged := false, pods := [], cachePods := [], hists := st.hists + 1, lastEv := [] }, [])
-  | "M" :: _ => (st, [])
+               cacheView := [], drained := false, errPending := [], model := none, modelDesync := false, reported := [], tainted := false, staleElig := [], cfgChanged := false, expectUnchanged := false, pods := [], cachePods := [], hists := st.hists + 1, lastEv := [] }, [])
+  | "M" :: rest =>
+    let tot := ((rest.getLast?.getD "").splitOn ",").foldl (fun a n => a + (((n.splitOn ":").getD 3 "0").toNat?.getD 0)) 0
+    ({ st with memTotal := tot }, [])
   | "HERR" :: _ => (st, [])
   | ["Q", "drain"] => (st, [])
   | ["Q", "end"] =>
@@ -333,7 +356,7 @@ def step (st : St) (toks : List String) : St × List Issue :=
     else if st.lastEv == ["reconfig", "same"] then
       -- re-applying the unchanged configuration was refused: verbatim re-instatement of the grants fails only
       -- when some pool's promised capacity already exceeds its shared CPUs (known finding C03:descendant-starved…)
-      let starved := starvedBefore st
+      let starved := cannotReinstate st
       let (st, is) := report st [if starved then "C13:unchanged-config-rejected-in-starved-state" else "C13:unchanged-config-rejected"]
       ({ st with tainted := true }, is)
     else (st, [])
@@ -385,10 +408,14 @@ def step (st : St) (toks : List String) : St × List Issue :=
         | none => (st, errs)
       | "restart" :: _ =>
         -- pending marks and error-pending bookkeeping do not survive a restart; every live container is re-allocated
-        ({ st with errPending := [], restarts := st.restarts + 1 }, errs)
+        ({ st with errPending := [], restarts := st.restarts + 1, staleElig := [] }, errs)
+      | "sync" :: _ => ({ st with staleElig := [] }, errs)
+      | ["reconfig", "change:reservedns"] =>
+        -- the grants are re-instated verbatim: containers whose namespace changed class keep their old kind of grant
+        ({ st with staleElig := (st.ctrs.filter (fun (c : CtrInfo) => c.ns.startsWith "reserved-")).map (fun (c : CtrInfo) => c.id) }, errs)
       | ["update", spec, base] =>
         match parseEvCtr spec with
-        | some c => ((match getCtr st c.id with | some o => setCtr st { o with milli := c.milli, rt := overlay o.rt (parseRes base), seen := parseRes base :: o.seen } | none => st), errs)
+        | some c => ((match getCtr st c.id with | some o => setCtr { st with staleElig := st.staleElig.filter (· != c.id) } { o with milli := c.milli, rt := overlay o.rt (parseRes base), seen := parseRes base :: o.seen } | none => st), errs)
         | none => (st, errs)
       | _ => (st, errs)
     -- apply updates to the runtime view; C12/C13 on each
@@ -405,11 +432,17 @@ def step (st : St) (toks : List String) : St × List Issue :=
             -- pinning was switched off by a configuration change: UpdateContainer echoes the cpuset cached from before (the value the runtime already has)
             (if acc.1.cfgChanged && r.getD 0 "-" == c.rt.getD 0 "-" then errs ++ [s!"C12:cached-cpuset-echoed-after-pinning-disabled {id}"]
              else errs ++ [s!"C12:cpus-told-with-pinning-disabled {id}"]) else errs
-        let errs := if !cfgChanged && !acc.1.snap.pinMem && r.getD 1 "-" != "-" then errs ++ [s!"C12:mems-told-with-pinning-disabled {id}"] else errs
+        let errs := if !cfgChanged && !acc.1.snap.pinMem && r.getD 1 "-" != "-" then
+            (if acc.1.cfgChanged && r.getD 1 "-" == c.rt.getD 1 "-" then errs ++ [s!"C12:cached-mems-echoed-after-pinning-disabled {id}"]
+             else errs ++ [s!"C12:mems-told-with-pinning-disabled {id}"]) else errs
         let rt' := overlay c.rt r
         -- (changes left pending by an earlier error reply and merely delivered now are not caused by the re-application)
         let errs := if isReconfig && acc.1.lastEv == ["reconfig", "same"] && rt' != c.rt && !acc.1.errPending.contains id then
-            errs ++ [if starvedBefore acc.1 then s!"C13:unchanged-config-replaced-in-starved-state {id}" else s!"C13:unchanged-config-changed-resources {id}"] else errs
+            errs ++ [if cannotReinstate acc.1 then s!"C13:unchanged-config-replaced-in-starved-state {id}"
+                     else if !c.milliTried.isEmpty then s!"C05:pending-after-error-reply container left without grant by a refused update regains one {id}"
+                     else if (overlay c.rt (r.set 1 (c.rt.getD 1 "-"))) == c.rt && !(sub (parseCpuList (c.rt.getD 1 "-")) (maskBits acc.1.nodesWithMem)) then
+                       s!"C04:memoryless-node-in-mems dropped from the memory set on re-instatement {id}"
+                     else s!"C13:unchanged-config-changed-resources {id}"] else errs
         (setCtr acc.1 { c with rt := rt', told := overlay c.told r }, errs)
       | none => acc) (st, errs)
     report st errs
@@ -450,7 +483,10 @@ def step (st : St) (toks : List String) : St × List Issue :=
     let (st, is) := if st.lastEv.head? == some "reconfig" && ((st.lastEv.getD 1 "").startsWith "change:") && st.lastOk then
         let live := st.ctrs.filter (fun c => c.state == "created" || c.state == "running")
         let errs := live.foldl (fun errs c =>
-          if !(st.snap.grants.any (·.ctr == c.id)) && !st.unsat.contains c.id && c.milliTried.isEmpty then errs ++ [s!"C13:live-container-without-allocation-after-change {c.id} ({c.state}) {st.lastEv.getD 1 "?"}"] else errs) []
+          if !(st.snap.grants.any (·.ctr == c.id)) && !st.unsat.contains c.id && c.milliTried.isEmpty then
+            -- (when the current grants cannot be re-instated verbatim - known findings - the fallback re-placement may leave containers out)
+            errs ++ [if cannotReinstate st then s!"C13:unchanged-config-replaced-in-starved-state container dropped by the fallback re-placement {c.id} {st.lastEv.getD 1 "?"}"
+                     else s!"C13:live-container-without-allocation-after-change {c.id} ({c.state}) {st.lastEv.getD 1 "?"}"] else errs) []
         let (st, is2) := report st errs
         (st, is ++ is2)
       else (st, is)
@@ -477,7 +513,12 @@ def step (st : St) (toks : List String) : St × List Issue :=
     let (st, is) := if st.expectUnchanged then
         let errs := (unchangedInv st.prevSnap st.snap).map (fun e => e.replace "C13:unchanged-config-changed-policy-state" "C13:rejected-config-changed-policy-state" |>.replace "C13:unchanged-config-changed-memory-zone" "C13:rejected-config-changed-memory-zone")
         let norm := fun (v : List (String × String × Res × Bool)) => (v.map fun e => (e.1, e.2.1, e.2.2.1)).toArray.qsort (fun a b => a.1 < b.1) |>.toList
-        let errs := if norm st.prevCacheView != norm st.cacheView then errs ++ [s!"C13:rejected-config-changed-cache {st.lastEv.getD 1 "?"}"] else errs
+        -- a successful revert delivers everything it wrote; marks that are still pending show that re-applying the configuration in
+        -- force failed too (the current grants cannot be re-instated - known finding) and left its partial writes behind
+        let revertFailed := st.cacheView.any (fun e => e.2.2.2) && !(st.prevCacheView.any (fun e => e.2.2.2))
+        let errs := if norm st.prevCacheView != norm st.cacheView then
+            (if revertFailed then errs ++ [s!"C13:rejected-config-revert-failed {st.lastEv.getD 1 "?"}"] else errs ++ [s!"C13:rejected-config-changed-cache {st.lastEv.getD 1 "?"}"]) else errs
+        let st := if revertFailed then { st with tainted := true } else st
         let errs := if st.snap.pinCPU != st.prevSnap.pinCPU || st.snap.pinMem != st.prevSnap.pinMem || !sameSet st.snap.reserved st.prevSnap.reserved || !sameSet st.snap.allowed st.prevSnap.allowed then
           errs ++ [s!"C13:rejected-config-changed-options {st.lastEv.getD 1 "?"}"] else errs
         let (st, is2) := report { st with expectUnchanged := false } errs
@@ -486,7 +527,11 @@ def step (st : St) (toks : List String) : St × List Issue :=
     -- C13: a successfully re-applied unchanged configuration leaves the policy state as it was
     let (st, is) := if st.lastEv == ["reconfig", "same"] && st.lastOk && !st.tainted then
         let errs := unchangedInv st.prevSnap st.snap
-        let errs := if starvedBefore st then errs.map (fun e => "C13:unchanged-config-replaced-in-starved-state " ++ e) else errs
+        let errs := if cannotReinstate st then errs.map (fun e => "C13:unchanged-config-replaced-in-starved-state " ++ e) else errs
+        -- a zone that contained a memory-less node (known finding C16/C04) is re-computed without it
+        let errs := errs.map fun e =>
+          if e.startsWith "C13:unchanged-config-changed-memory-zone" && st.prevSnap.grants.any (fun g => e.startsWith s!"C13:unchanged-config-changed-memory-zone {g.ctr}:" && !(sub (maskBits g.grantZone) (maskBits st.nodesWithMem)))
+          then "C04:memoryless-node-in-mems zone re-computed on re-instatement " ++ e else e
         let (st, is2) := report st errs
         (st, is ++ is2)
       else (st, is)
